@@ -633,8 +633,8 @@ End Cursor.
 (* the token type after advance() from a cursor standing at the head of l, whitespace-insensitive *)
 Definition nxt (l : list token) : toktype := cur_t (advance (state_at tEOF l [])).
 
-Lemma cur_t_advance_ext c c' : rest c = rest c' -> is_wss c = false -> is_wss c' = false ->
-  cur_t (advance c) = cur_t (advance c').
+Lemma cur_advance_ext c c' : rest c = rest c' -> is_wss c = false -> is_wss c' = false ->
+  cur (advance c) = cur (advance c').
 Proof.
   intros R W W'. unfold advance.
   assert (W1 : is_wss (advance_wss c) = false) by exact W. assert (W1' : is_wss (advance_wss c') = false) by exact W'.
@@ -642,8 +642,11 @@ Proof.
   assert (R2 : rest (advance_if_ws (advance_wss c)) = rest (advance_if_ws (advance_wss c'))).
   { unfold advance_if_ws, cur, advance_wss. simpl. rewrite R. destruct (is_ws (look0 (tl (rest c')))); simpl; rewrite ?R; reflexivity. }
   destruct (is_ws (peek (advance_if_ws (advance_wss c)))), (is_ws (peek (advance_if_ws (advance_wss c'))));
-    unfold cur_t, cur; simpl; rewrite R2; reflexivity.
+    unfold cur; simpl; rewrite R2; reflexivity.
 Qed.
+Lemma cur_t_advance_ext c c' : rest c = rest c' -> is_wss c = false -> is_wss c' = false ->
+  cur_t (advance c) = cur_t (advance c').
+Proof. intros R W W'. unfold cur_t. rewrite (cur_advance_ext c c' R W W'). reflexivity. Qed.
 
 Fixpoint named (toks : list token) : Prop :=
   match toks with
@@ -729,6 +732,101 @@ Proof.
     split; [exact Q0|]. cbn [named]. split; [intros _; exact TI|exact N].
 Qed.
 
+(* ---- the function table built by the pre-pass ---- *)
+Definition nxt_tok (l : list token) : token := cur (advance (state_at tEOF l [])).
+(* the identifiers following the `func` keywords, in source order *)
+Fixpoint func_names (toks : list token) : list str :=
+  match toks with
+  | [] => []
+  | t :: r => (match ttype t with T_FUNC => [tlit (nxt_tok (t :: r))] | _ => [] end) ++ func_names r
+  end.
+(* an entry made from a parsed signature: niladic iff no parameters; the arity is the number of parsed parameters,
+   or None for a single variadic parameter *)
+Definition fi_wf (fi : finfo) : Prop :=
+  fi_nil fi = (match fi_params fi with [] => true | _ => false end) /\
+  (fi_arity fi = Some (List.length (fi_params fi)) \/ (fi_arity fi = None /\ List.length (fi_params fi) = 1)).
+
+Lemma func_def_signature_shape s name fi s' : parse_func_def_signature B s = Ok (Some (name, fi)) s' ->
+  name = tlit (cur (cs (adv s))) /\ fi_wf fi.
+Proof.
+  unfold parse_func_def_signature. intro H. cbv zeta in H.
+  destruct (passert T_IDENT (adv s)) as [ok s2] eqn:A.
+  destruct ok; cbn [negb] in H; [|discriminate H].
+  assert (E2 : s2 = adv s).
+  { unfold passert in A. destruct (assert_token T_IDENT (cs (adv s))) as [o c] eqn:AT. injection A as -> <-.
+    unfold assert_token in AT. destruct (toktype_beq _ _); [|discriminate AT]. injection AT as <-. reflexivity. }
+  subst s2.
+  match type of H with (pdo (ret, s4) <- ?m; _) = _ => destruct m as [ret s4| |] end; try discriminate H.
+  destruct (sig_params_loop B (S (pos s4)) [] s4) as [params s5| |]; try discriminate H.
+  apply Ok_inj in H as [E _]. injection E as -> ->. split; [reflexivity|].
+  unfold fi_wf. cbn [fi_nil fi_params fi_arity]. split; [reflexivity|].
+  destruct (ct s5); try (left; reflexivity).
+  destruct (Nat.eqb (List.length params) 1) eqn:L; [right; split; [reflexivity|apply Nat.eqb_eq; exact L]|left; reflexivity].
+Qed.
+
+Lemma func_def_signature_none s s' : parse_func_def_signature B s = Ok None s' -> serrs s' <> [].
+Proof.
+  unfold parse_func_def_signature. intros H Q. cbv zeta in H.
+  destruct (passert T_IDENT (adv s)) as [ok s2] eqn:A.
+  destruct ok; cbn [negb] in H.
+  - match type of H with (pdo (ret, s4) <- ?m; _) = _ => destruct m as [ret s4| |] end; try discriminate H.
+    destruct (sig_params_loop B (S (pos s4)) [] s4) as [params s5| |]; discriminate H.
+  - apply Ok_inj in H as [_ ->]. rewrite serrs_apnl in Q. destruct (passert_ne _ _ _ _ A Q) as [X _]. discriminate X.
+Qed.
+
+Lemma signature_step_table pv toks s u s' : signature_step B pv toks s = Ok u s' -> serrs s' = [] ->
+  exists fi, fns s' = (tlit (nxt_tok toks), fi) :: fns s /\ fi_wf fi.
+Proof.
+  unfold signature_step. intros H Q. cbv zeta in H.
+  set (s0 := with_cs s (state_at pv toks (errs (cs s)))) in *.
+  destruct (parse_func_def_signature B s0) as [r s1| |] eqn:P; try discriminate H.
+  destruct r as [[name fi]|].
+  - destruct (func_def_signature_shape _ _ _ _ P) as [EN WF].
+    apply Ok_inj in H as [_ ->]. exists fi. split; [|exact WF]. cbn [fns].
+    assert (F1 : fns s1 = fns s).
+    { clear - P. unfold parse_func_def_signature in P. cbv zeta in P.
+      destruct (passert T_IDENT (adv s0)) as [ok s2] eqn:A. pose proof (passert_fns _ _ _ _ A) as F2.
+      destruct ok; cbn [negb] in P; [|discriminate P].
+      match type of P with (pdo (ret, s4) <- ?m; _) = _ => destruct m as [ret s4| |] eqn:PR end; try discriminate P.
+      destruct (sig_params_loop B (S (pos s4)) [] s4) as [params s5| |] eqn:PL; try discriminate P.
+      apply Ok_inj in P as [_ ->].
+      assert (F5 : fns s5 = fns s4).
+      { clear - PL. revert PL. generalize (S (pos s4)) (@nil (str * nat)). intros fu. revert s4.
+        induction fu as [|f IH]; intros s4 acc PL; [discriminate|]. cbn [sig_params_loop] in PL.
+        destruct (_ || _); [apply Ok_inj in PL as [_ ->]; reflexivity|].
+        destruct (parse_typed_decl B (snd (passert T_IDENT s4))) as [[[n p] t] s1| |] eqn:PT; try discriminate PL.
+        apply IH in PL. rewrite PL. unfold parse_typed_decl in PT.
+        destruct (p_type B _) as [ty s2| |] eqn:PY; try discriminate PT. unfold p_type in PY. apply expr_call_fn in PY.
+        destruct ty; apply Ok_inj in PT as [_ ->]; rewrite ?fns_serr_at, PY, !fns_adv, !fns_passert; reflexivity. }
+      assert (F4 : fns s4 = fns s2).
+      { destruct (ct (adv s2)); try (apply Ok_inj in PR as [_ ->]; apply fns_adv).
+        destruct (p_type B (adv (adv s2))) as [t s5'| |] eqn:PT; try discriminate PR. unfold p_type in PT. apply expr_call_fn in PT.
+        apply Ok_inj in PR as [_ ->]. destruct t; rewrite ?fns_serr_at, PT, !fns_adv; reflexivity. }
+      rewrite fns_apnl, fns_assert_eol.
+      transitivity (fns s5); [destruct (ct s5); try reflexivity; destruct (Nat.eqb _ _); rewrite ?fns_serr, fns_adv; reflexivity|].
+      rewrite F5, F4, F2. reflexivity. }
+    match goal with |- (name, fi) :: fns ?x = _ => assert (F3 : fns x = fns s1) end.
+    { destruct (lookup_fn name _); [rewrite fns_serr_at|destruct (is_func name _); rewrite ?fns_serr_at];
+        destruct (mem_str name (b_globals B)); rewrite ?fns_serr_at; reflexivity. }
+    rewrite F3, F1. f_equal. f_equal. rewrite EN. f_equal. unfold nxt_tok. apply cur_advance_ext; reflexivity.
+  - exfalso. apply Ok_inj in H as [_ ->]. exact (func_def_signature_none _ _ P Q).
+Qed.
+
+Lemma signatures_table : forall toks pv s u s', signatures B pv toks s = Ok u s' -> serrs s' = [] ->
+  exists sigs, fns s' = sigs ++ fns s /\ map fst sigs = rev (func_names toks) /\ Forall (fun nf => fi_wf (snd nf)) sigs.
+Proof.
+  induction toks as [|t r IH]; intros pv s u s' H Q; cbn [signatures] in H.
+  - apply Ok_inj in H as [_ ->]. exists []. repeat split; constructor.
+  - cbn [func_names]. destruct (ttype t) eqn:TT; try (exact (IH _ _ _ _ H Q)).
+    destruct (signature_step B pv (t :: r) s) as [u1 s1| |] eqn:P; try discriminate H.
+    destruct (IH _ _ _ _ H Q) as (sigs & F & NM & WF).
+    destruct (signatures_named _ _ _ _ _ H Q) as [Q1 _].
+    destruct (signature_step_table _ _ _ _ _ P Q1) as (fi & F1 & W1).
+    exists (sigs ++ [(tlit (nxt_tok (t :: r)), fi)]). split; [rewrite F, F1, <- app_assoc; reflexivity|]. split.
+    + rewrite map_app, NM. simpl. reflexivity.
+    + apply Forall_app. split; [exact WF|constructor; [exact W1|constructor]].
+Qed.
+
 (* the statement loop from a cursor inside the token list, whitespace-insensitive: every `func` it meets is named *)
 Lemma loop_named_true toks : named toks -> forall fuel terms s, SI toks [false] s -> loop_named B fuel terms s = true.
 Proof.
@@ -765,6 +863,23 @@ Proof.
   apply app_eq_nil in EE as [_ EE]. apply map_rev_nil in EE.
   destruct (signatures_named B _ _ _ _ _ SG EE) as [_ N].
   apply (loop_named_true B _ N). split; [apply sfx_refl|reflexivity].
+Qed.
+
+(* the function table of an accepted parse: the builtins, preceded by one entry per `func` keyword (latest first), named by
+   the identifier that follows the keyword, with the arity of the parsed parameter list *)
+Definition builtin_table (B : benv) : list (str * finfo) :=
+  map (fun nb => (fst nb, {| fi_nil := snd nb; fi_ret := true;
+                             fi_arity := match lookup_arity (fst nb) (b_arity B) with Some a => a | None => None end;
+                             fi_params := [] |})) (b_funcs B).
+Theorem fn_table_shape B raw eof p : parse B raw eof = Accept p ->
+  exists sigs, fn_table B raw = sigs ++ builtin_table B /\
+               map fst sigs = rev (func_names (legal_toks raw)) /\ Forall (fun nf => fi_wf (snd nf)) sigs.
+Proof.
+  unfold parse, fn_table, legal_toks, newparser_state, builtin_table.
+  destruct (signatures B tEOF _ _) as [u s1| |] eqn:SG; try discriminate.
+  destruct (_ ++ _) as [|e0 es0] eqn:EE; [|discriminate]. intros _.
+  apply app_eq_nil in EE as [_ EE]. apply map_rev_nil in EE.
+  exact (signatures_table B _ _ _ _ _ SG EE).
 Qed.
 
 (* ================================================================ *)
